@@ -1,5 +1,13 @@
 #!/bin/sh
-# builds the model driver from the freshly extracted model.ml
-set -e
+# builds the model driver(s): ocaml/<prop>/avm from ocaml/<prop>/{model.ml (extracted), drv.ml}
+# usage: build.sh [prop ...]   (default: every directory that has a model.ml)
 cd "$(dirname "$0")"
-ocamlfind ocamlopt -O3 -w -a model.mli model.ml zconv.ml verdict.ml drv_*.ml main.ml -o avm
+props="$@"
+[ -n "$props" ] || props=$(for d in */; do [ -f "$d/model.ml" ] && echo "${d%/}"; done)
+rc=0
+for p in $props; do
+  ( cd "$p" && cp ../zconv.ml ../verdict.ml ../main.ml . && \
+    ocamlfind ocamlopt -O3 -w -a model.mli model.ml zconv.ml verdict.ml drv.ml main.ml -o avm 2>&1 | tail -20 ; \
+    rm -f zconv.ml verdict.ml main.ml; [ -x avm ] ) || { echo "build.sh: $p failed"; rc=1; }
+done
+exit $rc
